@@ -165,7 +165,7 @@ def known_shapes(eng, sc, tids):
     return (z3.Or(*k3) if k3 else z3.BoolVal(False)), (z3.Or(*k4) if k4 else z3.BoolVal(False))
 
 
-def scenario(e3, shape, name, known):
+def scenario(e3, shape, name, known, with_race=True):
     P, eng, sc, tags, tids, roles, fin = build(shape, name)
     cleared = payloads(eng, "cleared")
     remaining = payloads(eng, "remaining")
@@ -232,6 +232,8 @@ def scenario(e3, shape, name, known):
     ]
     # an oracle that does not apply to this shape (no reader of that kind) is not a query
     props = [p for p in props if not z3.is_false(z3.simplify(p[2]))]
+    if not with_race:
+        props = [p for p in props if p[0] != "no_data_race_on_slots"]     # quick tier: race freedom is decided on the other shapes (thorough: on all)
     kn = {}
     if "K3" in known:
         props.append(("K3_push_into_detached_block", "known finding K3: value lost because the pusher claims a slot in a chain that a clear detached after the pusher loaded tail", z3.And(lost, k3), None))
@@ -244,11 +246,11 @@ def scenario(e3, shape, name, known):
 
 
 SCEN_QUICK = [
-    ([("push", 1), ("clear",)], "c05_push_clear", ["K3"]),
-    ([("push", 2), ("data",)], "c05_push2_data", []),
-    ([("push", 2), ("clear",)], "c05_push2_clear", ["K3"]),
-    ([("push", 1), ("push", 1), ("data",)], "c05_push_push_data", []),
-    ([("push", 3), ("is_empty",)], "c05_push3_is_empty", []),
+    ([("push", 1), ("clear",)], "c05_push_clear", ["K3"], True),
+    ([("push", 2), ("data",)], "c05_push2_data", [], True),
+    ([("push", 2), ("clear",)], "c05_push2_clear", ["K3"], False),
+    ([("push", 1), ("push", 1), ("data",)], "c05_push_push_data", [], False),
+    ([("push", 3), ("is_empty",)], "c05_push3_is_empty", [], False),
 ]
 SCEN_THOROUGH = [
     ([("push", 1), ("push", 1)], "c05_push_push", []),
@@ -261,10 +263,11 @@ SCEN_THOROUGH = [
 
 def _worker(job):
     """one scenario in a process of its own (the symbolic execution is single-threaded Python); returns plain data"""
-    shape, nm, known = job
+    shape, nm, known = job[:3]
+    with_race = job[3] if len(job) > 3 else True
     e3 = _e3.E3("C05")
     try:
-        scenario(e3, shape, nm, known)
+        scenario(e3, shape, nm, known, with_race)
     except _e3.ENC_ERRORS as ex:
         e3.error(nm, "MIR->SMT encoding of AtomicBucket / Block", ex)
     obs = []
@@ -282,7 +285,7 @@ def _worker(job):
 
 
 def run(tier, seed, t0):
-    jobs = SCEN_QUICK + (SCEN_THOROUGH if tier == "thorough" else [])
+    jobs = (SCEN_QUICK if tier == "quick" else [j[:3] for j in SCEN_QUICK]) + (SCEN_THOROUGH if tier == "thorough" else [])
     # the MIR is dumped once, before the workers start (they re-use the dump of this run)
     _e3.program(["metrics-util"])
     obs, mods, funcs = [], set(), set()
